@@ -41,7 +41,44 @@ type verifNode struct {
 	last      []string
 }
 
+// verifTransport is a transport implemented by the harness (net.Transport is an
+// interface in the real wiring): it answers fast-forward requests with a canned
+// response and refuses everything else.
+type verifTransport struct {
+	consumer chan net.RPC
+	ff       map[string]*net.FastForwardResponse // by target address
+	ffCalls  int
+}
+
+func (t *verifTransport) Listen()                   {}
+func (t *verifTransport) Consumer() <-chan net.RPC  { return t.consumer }
+func (t *verifTransport) LocalAddr() string         { return "local" }
+func (t *verifTransport) AdvertiseAddr() string     { return "local" }
+func (t *verifTransport) Close() error              { return nil }
+func (t *verifTransport) Sync(target string, args *net.SyncRequest, resp *net.SyncResponse) error {
+	return fmt.Errorf("no sync")
+}
+func (t *verifTransport) EagerSync(target string, args *net.EagerSyncRequest, resp *net.EagerSyncResponse) error {
+	return fmt.Errorf("no eager sync")
+}
+func (t *verifTransport) Join(target string, args *net.JoinRequest, resp *net.JoinResponse) error {
+	return fmt.Errorf("no join")
+}
+func (t *verifTransport) FastForward(target string, args *net.FastForwardRequest, resp *net.FastForwardResponse) error {
+	t.ffCalls++
+	r, ok := t.ff[target]
+	if !ok {
+		return fmt.Errorf("no answer from %s", target)
+	}
+	*resp = *r
+	return nil
+}
+
 func verifNewNode(nv int, self int, syncLimit int) *verifNode {
+	return verifNewNodeT(nv, self, syncLimit, nil)
+}
+
+func verifNewNodeT(nv int, self int, syncLimit int, trans net.Transport) *verifNode {
 	vn := &verifNode{proxy: &verifProxy{submitCh: make(chan []byte)}}
 	for i := 0; i < nv; i++ {
 		vn.peers = append(vn.peers, verifPeer(i))
@@ -56,7 +93,7 @@ func verifNewNode(nv int, self int, syncLimit int) *verifNode {
 		HeartbeatTimeout: time.Second,
 		LogLevel:         "panic",
 	}
-	vn.n = NewNode(conf, NewValidator(verifKey(self), fmt.Sprintf("node%d", self)), set, set, vn.store, nil, vn.proxy)
+	vn.n = NewNode(conf, NewValidator(verifKey(self), fmt.Sprintf("node%d", self)), set, set, vn.store, trans, vn.proxy)
 	vn.n.core.setHeadAndSeq()
 	return vn
 }
